@@ -163,6 +163,40 @@ pub fn generate(out: &mut Out, seed: u64, thorough: bool) {
                                 pixels[start..start + 3 * w2 as usize].iter().flatten().copied().collect();
                             emit(out, pt, is_mul, ext_name, ext, inplace, typed, w2, 3, &comps);
                         }
+                        // blocky alpha: every pattern of opaque / translucent / transparent blocks of 2, 4, 8 and 16
+                        // pixels inside the vectors (a kernel that treats a whole vector by looking at part of it shows)
+                        {
+                            let bw = 64u32;
+                            let mut comps: Vec<u64> = Vec::new();
+                            let mut rows = 0u32;
+                            for &b in &[2u32, 4, 8, 16] {
+                                for mask in 0..16u32 {
+                                    for other in 0..2u32 {
+                                        for x in 0..bw {
+                                            let opaque = (mask >> ((x / b) % 4)) & 1 == 1;
+                                            let a = match kind {
+                                                Kind::F32 => {
+                                                    if opaque { 1.0f32.to_bits() as u64 } else if other == 0 { 0 } else { f32_pool(&mut rng) }
+                                                }
+                                                _ => {
+                                                    let m = kind.max();
+                                                    if opaque { m } else if other == 0 { 0 } else { 1 + rng.below(m - 1) }
+                                                }
+                                            };
+                                            for _ in 0..n - 1 {
+                                                comps.push(match kind {
+                                                    Kind::F32 => f32_pool(&mut rng),
+                                                    _ => 1 + rng.below(kind.max()),
+                                                });
+                                            }
+                                            comps.push(a);
+                                        }
+                                        rows += 1;
+                                    }
+                                }
+                            }
+                            emit(out, pt, is_mul, ext_name, ext, inplace, typed, bw, rows, &comps);
+                        }
                     }
                 }
             }
